@@ -126,7 +126,7 @@ def build_traces(path, tier, seed):
         recs.append({"tid": tid, "kind": "combine", "dt": enc(0.01), "ns": enc_seq(ns), "we": enc_seq(we), "theta": enc(theta),
                      "out": enc_seq(out), "out180": enc_seq(out180)})
         meta[tid] = {"kind": "combine", "n": n, "theta": theta}
-    measures = ["pga", "pgv", "arias", "cav_series"]
+    measures = ["pga", "pgv", "arias", "cav_series", "velocity"]
     for i in range(nscan):
         n = int(rng.integers(8, 160))
         dt = [0.01, 0.02, 0.005][i % 3]
@@ -134,7 +134,7 @@ def build_traces(path, tier, seed):
         we, _ = gen.record(rng, n, amp=1.0)
         off = float([0.0, 30.0, -45.0, 200.0, rng.uniform(-180, 360)][i % 5])
         points = int([2, 3, 7, 10, 100][i % 5]) if tier == "thorough" else int([2, 3, 7, 10][i % 4])
-        m = measures[i % 4]
+        m = measures[i % 5]
         if i % 3 == 2:
             ns = np.round(ns * 40).astype(np.int64)
             we = np.round(we * 40).astype(np.int64)
@@ -146,11 +146,17 @@ def build_traces(path, tier, seed):
             ang, vals = multiple.compute_rotated(a, b, angle_off_ns=off, func=lambda s: s.pgv, points=points)
         elif m == "arias":
             ang, vals = multiple.compute_rotated(a, b, angle_off_ns=off, parameter="arias_intensity", points=points)
+        elif m == "velocity":
+            ang, vals = multiple.compute_rotated(a, b, off, "velocity", None, points)        # positional; array-valued attribute
+            vals = np.asarray(vals)
+            vals = [enc_seq(r) for r in vals] if vals.ndim == 2 else enc_seq(vals)
         else:
             ang, vals = multiple.compute_rotated(a, b, angle_off_ns=off, func=im.calc_cav, points=points)
+        if m != "velocity":
+            vals = enc_seq(vals)
         tid += 1
         recs.append({"tid": tid, "kind": "scan", "dt": enc(dt), "ns": enc_seq(ns), "we": enc_seq(we), "off": enc(off), "points": points,
-                     "measure": m, "angles": enc_seq(ang), "vals": enc_seq(vals)})
+                     "measure": m, "angles": enc_seq(ang), "vals": vals})
         meta[tid] = {"kind": "scan", "n": n, "off": off, "points": points, "measure": m}
     for i in range(nclu):
         k = int(rng.integers(2, 5))
@@ -179,6 +185,12 @@ def build_traces(path, tier, seed):
             sigs = [250.0 + 0.002 * s + (0.0 if j == master else 1e-3 * rng.uniform(0.5, 2.0)) for j, s in enumerate(sigs)]
         dt = 0.01
         e_idx = int(rng.integers(4, n // 2))
+        s_idx = 0
+        wm = int(rng.integers(3))          # section window: 0 explicit start / end, 1 the default window (first second), 2 start only
+        if wm:
+            dt = float(rng.choice([0.1, 0.05, 0.04, 0.025]))
+            e_idx = int(1 / dt) + 1
+            s_idx = int(rng.integers(1, e_idx - 2)) if wm == 2 else 0
         with warnings.catch_warnings():
             warnings.simplefilter("ignore")
             c = eqsig.Cluster([s.copy() for s in sigs], dt, master_index=master, stypes="acc" if i % 2 else "custom")
@@ -187,17 +199,24 @@ def build_traces(path, tier, seed):
             arr1 = [bool(isinstance(v, np.ndarray) and v.dtype.kind in "fiu") for v in v1raw]
             v1 = [np.array(v, dtype=float) for v in v1raw]
             end_t = (e_idx - 1) * dt + 0.004                              # int(end/dt) + 1 = e_idx
-            c.same_start(start=0, end=end_t)
+            start_t = (s_idx + 0.4) * dt
+            if wm == 0:
+                c.same_start(start=0, end=end_t)
+            elif wm == 1:
+                c.same_start()
+            else:
+                c.same_start(start=start_t)
             v2raw = [c.values_by_index(j) for j in range(k)]
             arr2 = [bool(isinstance(v, np.ndarray) and v.dtype.kind in "fiu") for v in v2raw]
             v2 = [np.array(v, dtype=float) for v in v2raw]
-        if int(end_t / dt) + 1 != e_idx:
+        if (wm == 0 and int(end_t / dt) + 1 != e_idx) or (wm == 2 and int(start_t / dt) != s_idx):
             continue
         tid += 1
-        recs.append({"tid": tid, "kind": "cluster", "k": k, "n": n, "master": master + 1, "steps": steps, "s": 0, "e": e_idx,
+        recs.append({"tid": tid, "kind": "cluster", "k": k, "n": n, "master": master + 1, "steps": steps, "s": s_idx, "e": e_idx,
                      "v0": [enc_seq(s) for s in sigs], "v1": [enc_seq(s) for s in v1], "v2": [enc_seq(s) for s in v2],
                      "arr1": arr1, "arr2": arr2})
-        meta[tid] = {"kind": "cluster", "k": k, "n": n, "master": master, "steps": steps, "true_lags": lags, "exact": not (i % 2)}
+        meta[tid] = {"kind": "cluster", "k": k, "n": n, "master": master, "steps": steps, "true_lags": lags, "exact": not (i % 2),
+                     "window": ["start=0, end=%.3f" % end_t, "default (first second), dt=%g" % dt, "start=%.3f only, dt=%g" % (start_t, dt)][wm]}
     write_ndjson(path, recs)
     return meta
 
